@@ -363,7 +363,7 @@ impl Check for C15 {
         "C15"
     }
     fn plan(&self, tier: Tier) -> Plan {
-        let mut p = Plan::new(tier.pick(24_000, 800_000), tier.pick(35.0, 480.0));
+        let mut p = Plan::new(tier.pick(480_000, 48_000_000), tier.pick(30.0, 420.0));
         p.cpu_budget_s = 60.0;
         p
     }
